@@ -196,3 +196,498 @@ def m_flush(I, a, t, c):
 def sink_text(I, path):
     cell = I.out_files[path]
     return ''.join(cell.v.fields[1])
+
+
+# ------------------------------------------------------------------ Box::new_uninit / vec![..] lowering
+@model('std::boxed::Box::new_uninit')
+def m_box_new_uninit(I, a, t, c):
+    return Agg('box', 0, [Agg('unique', 0, [RefV(Cell(Agg('uninit', 0, []), 'box-uninit'))])])
+
+
+@model('std::boxed::box_assume_init_into_vec_unsafe')
+def m_box_into_vec(I, a, t, c):
+    b = a[0]
+    v = b
+    while isinstance(v, Agg) and v.kind in ('box', 'unique'):
+        v = v.fields[0]
+    v = _deref(I, v)
+    # MaybeUninit<[T; N]> { uninit: (), value: ManuallyDrop { value: [T; N] } }: dig to the array
+    hops = 0
+    while isinstance(v, Agg) and v.kind != 'array' and hops < 6:
+        nxt = [x for x in v.fields if x is not None]
+        if not nxt:
+            break
+        v = nxt[-1]
+        hops += 1
+    if isinstance(v, Agg) and v.kind == 'array':
+        return Agg('array', 0, list(v.fields))
+    raise Unsupported('box_assume_init_into_vec of %r' % (v,))
+
+
+@model('std::boxed::Box::new')
+def m_box_new(I, a, t, c):
+    return Agg('box', 0, [Agg('unique', 0, [RefV(Cell(a[0], 'boxed'))])])
+
+
+# ------------------------------------------------------------------ DashMap (a MapV mutated through shared references), Mutex, Arc
+MapV = M.MapV
+_mkey = M._mkey
+
+
+def _map(I, v):
+    v = _deref(I, v)
+    if isinstance(v, MapV):
+        return v
+    raise Unsupported('not a map: %r' % (v,))
+
+
+@model('dashmap::DashMap::new', 'dashmap::DashMap::with_capacity', 'hashbrown::HashMap::with_capacity', 'std::collections::HashMap::with_capacity')
+def m_dm_new(I, a, t, c):
+    return MapV()
+
+
+@model('dashmap::DashMap::entry', 'std::collections::HashMap::entry')
+def m_dm_entry(I, a, t, c):
+    return Agg('entry', 0, [a[0], a[1]])
+
+
+def _ent(I, e):
+    m = _map(I, e.fields[0])
+    return m, _mkey(e.fields[1]), e.fields[1]
+
+
+@model('dashmap::Entry::or_default', 'hashbrown::hash_map::Entry::or_default', 'std::collections::hash_map::Entry::or_default')
+def m_entry_or_default(I, a, t, c):
+    m, k, kv = _ent(I, a[0])
+    if k not in m.d:
+        full = c.full or ''
+        dv = Agg('array', 0, [])             # Vec / String-like defaults; the only value types used with or_default here are Vec<_>
+        m.d[k] = (kv, Cell(dv, 'mapval'))
+    return RefV(m.d[k][1])
+
+
+@model('dashmap::Entry::or_insert_with', 'std::collections::hash_map::Entry::or_insert_with')
+def m_dm_or_insert_with(I, a, t, c):
+    m, k, kv = _ent(I, a[0])
+    if k not in m.d:
+        m.d[k] = (kv, Cell(I.call_closure(a[1], []), 'mapval'))
+    return RefV(m.d[k][1])
+
+
+@model('dashmap::Entry::or_insert', 'std::collections::hash_map::Entry::or_insert')
+def m_dm_or_insert(I, a, t, c):
+    m, k, kv = _ent(I, a[0])
+    if k not in m.d:
+        m.d[k] = (kv, Cell(a[1], 'mapval'))
+    return RefV(m.d[k][1])
+
+
+@model('<dashmap::mapref::one::RefMut<K, V> as std::ops::DerefMut>::deref_mut', '<dashmap::mapref::one::RefMut<K, V> as std::ops::Deref>::deref',
+       '<dashmap::mapref::one::Ref<K, V> as std::ops::Deref>::deref')
+def m_dm_ref_deref(I, a, t, c):
+    v = a[0]
+    if isinstance(v, RefV):
+        inner = I.load(v)
+        if isinstance(inner, RefV):
+            return inner
+    return v
+
+
+@model('dashmap::DashMap::contains_key')
+def m_dm_contains(I, a, t, c):
+    return M.bv_bool(_mkey(_deref(I, a[1])) in _map(I, a[0]).d)
+
+
+@model('dashmap::DashMap::get', 'dashmap::DashMap::get_mut', 'hashbrown::HashMap::get_mut', 'std::collections::HashMap::get', 'std::collections::HashMap::get_mut')
+def m_dm_get(I, a, t, c):
+    m = _map(I, a[0])
+    k = _mkey(_deref(I, a[1]))
+    if k in m.d:
+        return M.some(RefV(m.d[k][1]))
+    return M.NONE
+
+
+@model('dashmap::DashMap::insert', 'std::collections::HashMap::insert')
+def m_dm_insert(I, a, t, c):
+    m = _map(I, a[0])
+    k = _mkey(a[1])
+    old = m.d.get(k)
+    m.d[k] = (a[1], Cell(a[2], 'mapval'))
+    return M.some(old[1].v) if old else M.NONE
+
+
+@model('hashbrown::HashMap::remove', 'std::collections::HashMap::remove', 'dashmap::DashMap::remove')
+def m_map_remove(I, a, t, c):
+    m = _map(I, a[0])
+    k = _mkey(_deref(I, a[1]))
+    old = m.d.pop(k, None)
+    return M.some(old[1].v) if old else M.NONE
+
+
+@model('hashbrown::HashMap::is_empty', 'std::collections::HashMap::is_empty', 'dashmap::DashMap::is_empty')
+def m_map_is_empty(I, a, t, c):
+    return M.bv_bool(len(_map(I, a[0]).d) == 0)
+
+
+@model('dashmap::DashMap::len', 'std::collections::HashMap::len')
+def m_dm_len(I, a, t, c):
+    return BV(64, len(_map(I, a[0]).d))
+
+
+@model('dashmap::DashMap::iter_mut', 'dashmap::DashMap::iter')
+def m_dm_iter_mut(I, a, t, c):
+    m = _map(I, a[0])
+    return Agg('iter', 0, [[Agg('dmpair', 0, [RefV(Cell(kv, 'key')), RefV(cell)]) for (kv, cell) in m.d.values()], 0])
+
+
+@model('dashmap::mapref::multiple::RefMutMulti::pair_mut', 'dashmap::mapref::multiple::RefMulti::pair')
+def m_dm_pair_mut(I, a, t, c):
+    p = _deref(I, a[0])
+    return Agg('tuple', 0, [p.fields[0], p.fields[1]])
+
+
+@model('<hashbrown::HashMap<K, V, S, A> as std::iter::Extend<(K, V)>>::extend')
+def m_map_extend(I, a, t, c):
+    m = _map(I, a[0])
+    src = a[1]
+    if isinstance(src, MapV):
+        items = [Agg('tuple', 0, [kv, cell.v]) for (kv, cell) in src.d.values()]
+    else:
+        items = M._iter_items(I, src)
+    for it in items:
+        it = _deref(I, it)
+        kx, vx = it.fields
+        m.d[_mkey(kx)] = (kx, Cell(vx, 'mapval'))
+    return UNIT
+
+
+@model('std::sync::Mutex::new', 'std::sync::Arc::new')
+def m_wrap_new(I, a, t, c):
+    return Agg('wrap', 0, [RefV(Cell(a[0], 'shared'))])
+
+
+@model('<std::sync::Arc<T, A> as std::ops::Deref>::deref', '<std::sync::MutexGuard<T> as std::ops::Deref>::deref',
+       '<std::sync::MutexGuard<T> as std::ops::DerefMut>::deref_mut')
+def m_wrap_deref(I, a, t, c):
+    v = _deref(I, a[0])
+    if isinstance(v, Agg) and v.kind == 'wrap':
+        return v.fields[0]
+    raise Unsupported('deref of %r' % (v,))
+
+
+@model('std::sync::Mutex::lock')
+def m_mutex_lock(I, a, t, c):
+    v = _deref(I, a[0])
+    if isinstance(v, Agg) and v.kind == 'wrap':
+        return M._ok(Agg('wrap', 0, [v.fields[0]]))       # the guard derefs to the same cell
+    raise Unsupported('lock of %r' % (v,))
+
+
+@model('<std::sync::Arc<T, A> as std::clone::Clone>::clone')
+def m_arc_clone(I, a, t, c):
+    return _deref(I, a[0])
+
+
+@model('rayon::ThreadPoolBuilder::build')
+def m_tpb_build(I, a, t, c):
+    return M._ok(Opaque('ThreadPool'))
+
+
+@model('rayon::ThreadPool::install')
+def m_pool_install(I, a, t, c):
+    return I.call_closure(a[1], [])
+
+
+@model('<T as rayon::iter::ParallelBridge>::par_bridge', 'rayon::iter::ParallelBridge::par_bridge')
+def m_par_bridge(I, a, t, c):
+    return a[0]
+
+
+@model('std::process::exit')
+def m_process_exit(I, a, t, c):
+    raise Panic('process-exit', 'exit(%s)' % (a[0],), t.span)
+
+
+# ------------------------------------------------------------------ BitSet (immutable value in its cell), String, slices, Option, orderings
+bitset = M.bitset
+_bs = M._bs
+
+
+@model('bit_set::BitSet::with_capacity', 'bit_set::BitSet::new', '<bit_set::BitSet<B> as std::default::Default>::default')
+def m_bs_new(I, a, t, c):
+    return bitset([])
+
+
+@model('bit_set::BitSet::clear')
+def m_bs_clear(I, a, t, c):
+    I.store(a[0], bitset([]))
+    return UNIT
+
+
+@model('bit_set::BitSet::insert')
+def m_bs_insert(I, a, t, c):
+    cur = _bs(I, a[0])
+    x = I.conc(a[1])
+    I.store(a[0], bitset(cur | {x}))
+    return M.bv_bool(x not in cur)
+
+
+@model('<bit_set::BitSet<B> as std::iter::Extend<usize>>::extend')
+def m_bs_extend(I, a, t, c):
+    cur = _bs(I, a[0])
+    xs = [I.conc(_deref(I, x)) for x in M._iter_items(I, a[1])]
+    I.store(a[0], bitset(cur | set(xs)))
+    return UNIT
+
+
+@model('<bit_set::BitSet<B> as std::clone::Clone>::clone')
+def m_bs_clone(I, a, t, c):
+    return _deref(I, a[0])
+
+
+@model('<&bit_set::BitSet<B> as std::iter::IntoIterator>::into_iter')
+def m_bs_into_iter(I, a, t, c):
+    return M._bs_iter(_bs(I, a[0]))
+
+
+def _str(I, v):
+    v = _deref(I, v)
+    if isinstance(v, StrV):
+        return v
+    raise Unsupported('not a string: %r' % (v,))
+
+
+@model('std::string::String::len', 'core::str::<impl str>::len')
+def m_str_len(I, a, t, c):
+    return BV(64, len(_str(I, a[0]).chars))
+
+
+@model('core::str::<impl str>::is_empty')
+def m_str_is_empty(I, a, t, c):
+    return M.bv_bool(len(_str(I, a[0]).chars) == 0)
+
+
+@model('std::string::String::push_str')
+def m_push_str(I, a, t, c):
+    s = _str(I, a[0])
+    I.store(a[0], StrV(list(s.chars) + list(_str(I, a[1]).chars)))
+    return UNIT
+
+
+@model('std::string::String::clear')
+def m_str_clear(I, a, t, c):
+    I.store(a[0], StrV([]))
+    return UNIT
+
+
+@model('<std::string::String as std::ops::Index<I>>::index', 'core::str::traits::<impl std::ops::Index<I> for str>::index')
+def m_str_index(I, a, t, c):
+    s = _str(I, a[0])
+    r = a[1]
+    n = len(s.chars)
+    k = r.kind.split('::')[-1] if isinstance(r, Agg) else ''
+    if k == 'Range':
+        lo, hi = I.conc(r.fields[0]), I.conc(r.fields[1])
+    elif k == 'RangeTo':
+        lo, hi = 0, I.conc(r.fields[0])
+    elif k == 'RangeFrom':
+        lo, hi = I.conc(r.fields[0]), n
+    elif k == 'RangeFull':
+        lo, hi = 0, n
+    elif k == 'RangeInclusive':
+        lo, hi = I.conc(r.fields[0]), I.conc(r.fields[1]) + 1
+    else:
+        raise Unsupported('string index with %r' % (r,))
+    if lo > hi or hi > n:
+        raise Panic('str-index', 'byte range %d..%d of %d' % (lo, hi, n), t.span)
+    return RefV(Cell(StrV(list(s.chars[lo:hi])), 'substr'))
+
+
+@model('core::str::<impl str>::ends_with', 'core::str::<impl str>::starts_with')
+def m_str_ends_with(I, a, t, c):
+    s = M._strval(I, a[0])
+    p = M._strval(I, a[1])
+    return M.bv_bool(s.endswith(p) if c.name.endswith('ends_with') else s.startswith(p))
+
+
+@model('std::slice::<impl [T]>::join', 'alloc::slice::<impl [T]>::join', 'std::slice::<impl [S]>::join')
+def m_slice_join(I, a, t, c):
+    parts = [M._strval(I, x) for x in M._vals(I, a[0])]
+    sep = M._strval(I, a[1])
+    return StrV(list(sep.join(parts)))
+
+
+@model('core::slice::<impl [T]>::windows')
+def m_windows(I, a, t, c):
+    cell, path, s, n = M._slice(I, a[0])
+    w = I.conc(a[1])
+    return Agg('iter', 0, [[RefV(cell, path, (s + i, w)) for i in range(0, max(0, n - w + 1))], 0])
+
+
+def _cmp_key(I, clos):
+    import functools
+
+    def cmp(x, y):
+        r = I.call_closure(clos, [RefV(Cell(x, 'a')), RefV(Cell(y, 'b'))])
+        return {0: -1, 1: 0, 2: 1}[r.variant]
+    return functools.cmp_to_key(cmp)
+
+
+@model('std::slice::<impl [T]>::sort_by', 'core::slice::<impl [T]>::sort_by', 'alloc::slice::<impl [T]>::sort_by', 'core::slice::<impl [T]>::sort_unstable_by')
+def m_sort_by(I, a, t, c):
+    cell, path, s, n = M._slice(I, a[0])
+    v = I.load(RefV(cell, path))
+    f = list(v.fields)
+    f[s:s + n] = sorted(f[s:s + n], key=_cmp_key(I, a[1]))      # python's sort is stable, like slice::sort_by
+    I.store(RefV(cell, path), Agg('array', 0, f))
+    return UNIT
+
+
+@model('std::slice::<impl [T]>::sort_by_key', 'core::slice::<impl [T]>::sort_by_key', 'alloc::slice::<impl [T]>::sort_by_key', 'core::slice::<impl [T]>::sort_unstable_by_key')
+def m_sort_by_key(I, a, t, c):
+    cell, path, s, n = M._slice(I, a[0])
+    v = I.load(RefV(cell, path))
+    f = list(v.fields)
+
+    def key(x):
+        k = I.call_closure(a[1], [RefV(Cell(x, 'a'))])
+        return _ordkey(I, k)
+    f[s:s + n] = sorted(f[s:s + n], key=key)
+    I.store(RefV(cell, path), Agg('array', 0, f))
+    return UNIT
+
+
+def _ordkey(I, k):
+    k = _deref(I, k)
+    if isinstance(k, BV):
+        return I.conc(k)
+    if isinstance(k, float):
+        return k
+    if isinstance(k, Agg) and k.kind == 'tuple':
+        return tuple(_ordkey(I, x) for x in k.fields)
+    if isinstance(k, StrV):
+        return tuple(k.chars)
+    raise Unsupported('sort key %r' % (k,))
+
+
+def _ordering(n):
+    return Agg('adt:std::cmp::Ordering', {-1: 0, 0: 1, 1: 2}[n], [])
+
+
+@model('std::cmp::Ord::cmp')
+def m_ord_cmp(I, a, t, c):
+    x, y = _ordkey(I, a[0]), _ordkey(I, a[1])
+    return _ordering((x > y) - (x < y))
+
+
+@model('std::cmp::impls::<impl std::cmp::PartialOrd for f64>::partial_cmp', 'std::cmp::PartialOrd::partial_cmp')
+def m_partial_cmp(I, a, t, c):
+    x, y = _ordkey(I, a[0]), _ordkey(I, a[1])
+    if x != x or y != y:
+        return M.NONE
+    return M.some(_ordering((x > y) - (x < y)))
+
+
+@model('std::cmp::Ordering::then_with')
+def m_then_with(I, a, t, c):
+    if a[0].variant != 1:
+        return a[0]
+    return I.call_closure(a[1], [])
+
+
+@model('std::cmp::Ordering::then')
+def m_then(I, a, t, c):
+    return a[0] if a[0].variant != 1 else a[1]
+
+
+@model('std::cmp::Ordering::reverse')
+def m_ord_reverse(I, a, t, c):
+    return Agg('adt:std::cmp::Ordering', {0: 2, 1: 1, 2: 0}[a[0].variant], [])
+
+
+@model('std::option::Option::cloned', 'std::option::Option::<&T>::cloned', 'std::option::Option::copied', 'std::option::Option::<&T>::copied')
+def m_opt_cloned(I, a, t, c):
+    o = a[0]
+    if o.variant == 1:
+        return M.some(_deref(I, o.fields[0]))
+    return M.NONE
+
+
+@model('std::option::Option::as_mut', 'std::option::Option::<T>::as_mut')
+def m_opt_as_mut(I, a, t, c):
+    o = I.load(a[0])
+    if o.variant == 1:
+        return M.some(RefV(a[0].cell, a[0].path + (0,)))
+    return M.NONE
+
+
+@model('<std::vec::Vec<T, A> as std::iter::Extend<&T>>::extend')
+def m_vec_extend_ref(I, a, t, c):
+    v = I.load(a[0])
+    items = [_deref(I, x) for x in M._iter_items(I, a[1])]
+    I.store(a[0], Agg('array', 0, list(v.fields) + items))
+    return UNIT
+
+
+@model('<hashbrown::HashSet<T, S, A> as std::iter::Extend<&T>>::extend', '<hashbrown::HashSet<T, S, A> as std::iter::Extend<T>>::extend')
+def m_set_extend(I, a, t, c):
+    s = I.load(a[0])
+    for x in M._iter_items(I, a[1]):
+        x = _deref(I, x)
+        s.d[M._skey(x)] = x
+    return UNIT
+
+
+@model('hashbrown::HashSet::iter')
+def m_set_iter(I, a, t, c):
+    s = _deref(I, a[0])
+    return Agg('iter', 0, [[RefV(Cell(x, 'elem')) for x in s.d.values()], 0])
+
+
+@model('<hashbrown::HashSet<T, S, A> as std::clone::Clone>::clone')
+def m_set_clone(I, a, t, c):
+    s = _deref(I, a[0])
+    return M.SetV(list(s.d.values()))
+
+
+@model('core::num::<impl u8>::is_ascii_whitespace')
+def m_is_ws(I, a, t, c):
+    return M.bv_bool(I.conc(_deref(I, a[0])) in (9, 10, 12, 13, 32))
+
+
+@model('std::vec::Vec::truncate')
+def m_vec_truncate2(I, a, t, c):
+    v = I.load(a[0])
+    n = I.conc(a[1])
+    if n < len(v.fields):
+        I.store(a[0], Agg('array', 0, list(v.fields)[:n]))
+    return UNIT
+
+
+@model('prim::ToString::to_string')
+def m_prim_to_string(I, a, t, c):
+    v = _deref(I, a[0])
+    if isinstance(v, BV) and v.val is not None:
+        full = c.full or ''
+        if '<char as' in full or (v.w == 32 and 'char' in full):
+            return StrV([chr(v.val)])
+        n = v.val
+        if v.signed and n >= 1 << (v.w - 1):
+            n -= 1 << v.w
+        return StrV(list(str(n)))
+    if isinstance(v, StrV):
+        return StrV(list(v.chars))
+    raise Unsupported('to_string of %r' % (v,))
+
+
+@model('std::f32::<impl f32>::round')
+def m_f32_round(I, a, t, c):
+    import math
+    x = a[0]
+    return float(math.floor(abs(x) + 0.5)) * (1 if x >= 0 else -1)
+
+
+@model('std::f32::<impl f32>::floor', 'std::f32::<impl f32>::ceil')
+def m_f32_floor(I, a, t, c):
+    import math
+    return float(math.floor(a[0]) if c.name.endswith('floor') else math.ceil(a[0]))
